@@ -12,7 +12,7 @@ def canon_value(rng):
 def any_value(rng):
     return rng.choice(["", "a\n", "\nb", "a\n#b", " a", "a\n b", "a\rb", "x"]) if rng.random() < 0.5 else canon_value(rng)
 
-def init_doc(rng, wf=True):
+def init_doc(rng, wf=True, parsed_paras=True):
     """returns (init field, list of names in the doc)"""
     k = rng.random()
     if k < 0.12:
@@ -21,6 +21,19 @@ def init_doc(rng, wf=True):
         d = gen_lossy.ldoc(rng, True)
         d = [[(n, v if v and not v.startswith("\n") else "x") for n, v in p] for p in d]
         return "F:" + gen_lossy.enc(d), [n for p in d for n, _ in p]
+    if k < 0.42 and parsed_paras:
+        # a document collected from parsed paragraphs (one-paragraph texts, with or without final line end)
+        texts = []; names = []
+        for _ in range(rng.choice([1, 2, 2, 3])):
+            for _try in range(8):
+                blocks = [b for b in gen_grammar.gen_struct_doc(rng) if b[0] == "P"][:1]
+                if blocks: break
+            if not blocks: continue
+            t = gen_grammar.render(blocks)
+            if rng.random() < 0.5 and t.endswith("\n"): t = t[:-1]
+            texts.append(hexs(t)); names += gen_grammar.all_names(blocks)
+        if texts:
+            return "P:" + ";".join(texts), names
     if wf:
         blocks = gen_grammar.gen_struct_doc(rng)
         return "T:" + hexs(gen_grammar.render(blocks)), gen_grammar.all_names(blocks)
